@@ -76,7 +76,7 @@ Section K.
   Theorem kstep_ref ts c (m : kstore) : NoDup (map fst m) ->
     MapK.kstep compact ts c m = SpecK.kstep compact ts c m.
   Proof.
-    intros ND. destruct c as [k v|k v|k v|k d|k v|k off v|ks|k dur v|k dur|k|]; cbn [MapK.kstep SpecK.kstep]; try reflexivity.
+    intros ND. destruct c as [k v|k v|k v|k d|k v|k off v|ks|k dur v|k dur|k|k v dur nx xx|]; cbn [MapK.kstep SpecK.kstep]; try reflexivity.
     - (* setnx *) destruct (negb (value_ok v) || negb (key_ok k)); [reflexivity|]. rewrite <- live_some.
       destruct (kget compact ts k m); reflexivity.
     - (* append *) destruct (negb (key_ok k)); [reflexivity|]. kv.
@@ -90,12 +90,15 @@ Section K.
       rewrite (del_keys_nodup ts (dedup [] ks) (dedup_NoDup _ _) m ND).
       do 4 f_equal. apply filter_ext. intros k. rewrite live_some. reflexivity.
     - (* setex *) destruct (dur <=? 0); [reflexivity|]. cbn [orb]. destruct (negb (key_ok k) || negb (value_ok v)); reflexivity.
+    - (* set with options *)
+      destruct (negb (value_ok v)); [reflexivity|]. cbn [orb]. destruct (negb (key_ok k)); [reflexivity|].
+      rewrite <- live_some. destruct (kget compact ts k m); destruct nx, xx; cbn [andb orb negb]; reflexivity.
   Qed.
 
   Lemma kstep_nodup ts c (m : sstore) : NoDup (map fst m) -> NoDup (map fst (fst (SpecK.kstep compact ts c m))).
   Proof.
     intros ND. assert (P : forall k v, NoDup (map fst (aput bytes_eqb k v m))) by (intros; apply (nodup_aput bytes_eqb bytes_eqb_eq); exact ND).
-    destruct c as [k v|k v|k v|k d|k v|k off v|ks|k dur v|k dur|k|]; cbn [SpecK.kstep]; try exact ND;
+    destruct c as [k v|k v|k v|k d|k v|k off v|ks|k dur v|k dur|k|k v dur nx xx|]; cbn [SpecK.kstep]; try exact ND;
       try (repeat match goal with
                   | |- context [if ?b then _ else _] => destruct b
                   | |- context [match ?o with Some _ => _ | None => _ end] => destruct o
